@@ -62,6 +62,7 @@ func (g *Gen) buildQueries(unit string, getVals, valNames []string) []*Query {
 		head.WriteString(")\n")
 		addCtx(d)
 	}
+	nDefs := len(ctxSx)
 	if d := g.strLitDistinct(); d != "" {
 		head.WriteString("(assert " + d + ")\n")
 	}
@@ -106,7 +107,7 @@ func (g *Gen) buildQueries(unit string, getVals, valNames []string) []*Query {
 					ip := &instPass{idxSort: g.IS(), bv: !g.intMode, maxTotal: 4000}
 					goal := parseSexps(it.F)[0]
 					guard := parseSexps(it.Guard)[0]
-					decls, extra, neg := ip.run(ctxSx, guard, goal)
+					decls, extra, neg := ip.run(ctxSx, nDefs, guard, goal)
 					for _, d := range decls {
 						sb.WriteString(d + "\n")
 					}
@@ -143,7 +144,12 @@ func (g *Gen) buildQueries(unit string, getVals, valNames []string) []*Query {
 				continue
 			}
 		}
-		// once checked (or assumed) the fact is available to what follows
+		// once checked (or assumed) the fact is available to what follows. Postconditions and
+		// invariant obligations sit at the end of a path (nothing of that path follows them), so
+		// they are not added: it keeps later queries small and stable.
+		if it.Oblig && (it.Kind == "ensures" || it.Kind == "invariant" || it.Kind == "lemma") {
+			continue
+		}
 		if it.F != "true" {
 			f := implies(it.Guard, it.F)
 			ctx.WriteString(fmt.Sprintf("(assert %s)\n", f))
